@@ -230,7 +230,8 @@ pub fn split(
     sized: bool,
     compressed: bool,
 ) -> Vec<Vec<u8>> {
-    let mut id: u32 = rng.gen::<u32>() & 0x7fff_ffff;
+    // Source: bit 31 of the answer id is the compression flag; GoldSrc: the id is any 32-bit number (no flag exists there)
+    let mut id: u32 = if gold { rng.gen::<u32>() | if rng.gen_bool(0.5) { 0x8000_0000 } else { 0 } } else { rng.gen::<u32>() & 0x7fff_ffff };
     let (body, dsize, crc) = if compressed {
         id |= 0x8000_0000;
         (bz2(payload), payload.len() as u32, crc32fast::hash(payload))
